@@ -8,7 +8,9 @@
                                     1 resolved, 2 failed, 3 pending - resolved later by another thread,
                                     4 pending for ever, 5 pending - failed later by another thread
                               b = timeout given to f_proxy in ticks, -1 = none given
-                              c = wrapper kind: 1 f_proxy, 2 f_nocancel
+                              c = wrapper kind: 1 f_proxy, 2 f_nocancel, 3 f_nocancel(f_proxy(f)) - judged as 2 -,
+                                  4 f_proxy(f_proxy(f), timeout) - judged as 1
+     WrapRaise(f, s)          building the wrapper raised
      OpCall(f, k, c, s)       a client is about to apply operation instance k (s = name) to the wrapper;
                               c = class: 1 forwarded operator / method / attribute,
                                          2 not forwarded (bool, repr, str, ==, !=, hash, unknown __dunder__ lookup)
@@ -52,7 +54,7 @@ Drop(m, key) == [x \in DOMAIN m \ {key} |-> m[x]]
 IsRet(st, e)    == e.ev = "OpRet" /\ Has(st.cfg, e.f) /\ Has(st.open, Key(e))
 IsFwdRet(st, e) == IsRet(st, e) /\ st.open[Key(e)][1] = 1
 IsNonRet(st, e) == IsRet(st, e) /\ st.open[Key(e)][1] = 2
-NoCancelCase(st, f) == Has(st.cfg, f) /\ Kind(st, f) = 2
+NoCancelCase(st, f) == Has(st.cfg, f) /\ Kind(st, f) \in {2, 3}
 \* state 6: f is pending and its OWNER cancels it after D ticks (the wrapper then mirrors the cancellation, and
 \* f_nocancel(f).cancel() must STILL answer False)
 OwnerCancels(st, f) == Has(st.cfg, f) /\ FState(st, f) = 6
@@ -67,7 +69,9 @@ ObsNext(st, e) ==
     [] OTHER -> st
 
 Clauses(st, e) ==
-  << \* "applying it to f_proxy(f) gives what applying it to f.result() gives - the same value or the same
+  << \* the wrappers are total: f_proxy / f_nocancel of a future in any state (another wrapper included) return a future
+     <<"C17_WrapReturns", e.ev = "WrapRaise" => FALSE>>,
+     \* "applying it to f_proxy(f) gives what applying it to f.result() gives - the same value or the same
      \*  exception type" (f resolves with a value: states 1, 3; a legitimate TimeoutError is judged below)
      <<"C17_ForwardedTransparent",
         (IsFwdRet(st, e) /\ FState(st, e.f) \in {1, 3} /\ e.b # 4) =>
